@@ -130,7 +130,7 @@ Proof.
       + skipb 8%nat. skipb 4%nat. skipb 4%nat. skipb 20%nat. skipb 20%nat. skipb 8%nat. skipb 8%nat. skipb 8%nat. skipb 4%nat.
         skipb 4%nat. skipb 4%nat. skipb 4%nat. apply sub_here', be_enc_length. }
   destruct Rest as (Sip & Snw & Sport). rewrite Sip, Snw, Sport.
-  unfold announce_of_fields. cbn [event_ids length]. rewrite Sp. cbn [negb andb].
+  unfold announce_of_fields, choose_ip. cbn [event_ids length]. rewrite Sp. cbn [negb andb].
   destruct (Z.leb_spec (Z.of_nat 4) (f_event f)) as [C|_]; [lia|].
   destruct (handle_optional tail) as [q|e|]; try reflexivity.
   rewrite event_ids_nth by exact H8.
